@@ -125,6 +125,37 @@ class case_timeout:
         return False
 
 
+def repo_tests_under_monitors(ctx, prop):
+    """Run the repository's own suite under the universal monitors (vmon/pytest_plugin.py) in a subprocess and fold
+    what the monitors of ``prop`` observed into this shard's result."""
+    out = os.path.join(os.environ.get("VERIF_WORK", "/var/tmp"), f"plugin-{os.getpid()}.json")
+    env = dict(os.environ)
+    env["PYTHONPATH"] = VERIF + os.pathsep + REPO
+    env["VERIF_PLUGIN_OUT"] = out
+    try:
+        r = subprocess.run([PY, "-B", "-m", "pytest", "-q", "-x", "-p", "vmon.pytest_plugin", "-p", "no:cacheprovider", os.path.join(REPO, "tests")],
+                           cwd=REPO, env=env, capture_output=True, text=True, timeout=600)
+    except subprocess.TimeoutExpired:
+        ctx.count("inconclusive:repository-suite-under-monitors-timed-out")
+        return
+    if not os.path.exists(out):
+        ctx.count("inconclusive:repository-suite-under-monitors-no-output")
+        ctx.notes["repo_suite_tail"] = r.stdout[-300:]
+        return
+    d = json.load(open(out))
+    os.unlink(out)
+    ctx.count("repository-tests-run-under-monitors", d.get("tests", 0))
+    ctx.notes["repo_suite_summary"] = r.stdout.strip().splitlines()[-1][:120] if r.stdout.strip() else ""
+    for k, v in d.get("counters", {}).items():
+        ctx.count("repo-suite:" + k, v)
+    ctx.evaluations += d.get("events", 0)
+    for v in d.get("violations", []):
+        if v["property"] == prop:
+            ctx.violation(v["sig"], f"{v['msg']} (repository test {v['test']})", {"repository_test": v["test"]})
+        else:
+            ctx.foreign_obs(v["property"], v["msg"])
+
+
 def load_prop(prop):
     return importlib.import_module(f"vmon.props.{prop.lower()}")
 
